@@ -290,10 +290,12 @@ def run(ctx: Ctx) -> None:
     scen6, cases6, _ = c06.export(ctx, "consumer")
     multi = [c for c in cases6 if c["kind"] == "parts" and len(c["parts"]) >= 2]
     rng.shuffle(multi)
+    multi.sort(key=lambda c: -sum(1 for key in c["parts"] if key[0] == "int"))     # single-element parts first
+    scenz, _, _ = c06.export(ctx, "zip")        # one axis only: an int part leaves exactly ONE element to compute
     for k, c in enumerate(multi[: (2 if quick else 12)]):
-        for kind in ("thread", "process"):
+        for kind in ("thread", "process", "async"):
             for st in STORAGES:
-                h = c06.run_history(scen6, c, st, pool=kind)
+                h = c06.run_history(scenz if kind == "async" else scen6, c, st, pool=kind)
                 pools.append({"desc": h["desc"], "inputs": h["inputs"], "ev": h["ev"], "storage": st, "entry": kind + "-parts",
                               "case": c, "followed": True, "stuck": "", "script": []})
     for t in pools:
